@@ -19,6 +19,7 @@ Clauses (DESIGN §4 C04):
   A4  the three real main-net pairs signed by earlier releases validate (lbry AND reference) and stop
       validating under the same mutations.
 """
+import hashlib
 import json
 import os
 import random
@@ -62,7 +63,7 @@ REQUIRED_HITS = [
     'A3.sig_bit', 'A3.all_512_sig_bits', 'A3.payload_bit', 'A3.payload_field', 'A3.envelope_flag', 'A3.channel_hash_bit',
     'A3.other_channel_key', 'A3.channel_key_damaged', 'A3.first_input_txid', 'A3.first_input_index', 'A3.first_input_swapped',
     'A4.validates', 'A4.ref_verified', 'A4.high_s_validates', 'A4.sig_bit', 'A4.payload_bit', 'A4.channel_hash_bit', 'A4.other_channel',
-    'A4.first_input_txid', 'A4.first_input_index',
+    'A4.first_input_txid', 'A4.first_input_index', 'A4.channel_key_damaged',
 ]
 FIX = os.path.join(boot.VERIF, 'fixtures', 'c04_legacy_pairs.json')
 NINS = [1, 2, 3, 5, 8, 13, 20, 1, 2, 4, 6, 16]
@@ -86,8 +87,8 @@ def gen_cases(rng, tier, shard, nshards):
     if shard == nshards - 1 or not quick:      # last shard: its (large) witnesses come last when shards are merged
         yield {'fam': 'tx', 'seed': rng.getrandbits(48), 'nin': 260 if quick else rng.choice([253, 260, 300]), 'mode': 'manual',
                'okind': 'pay'}
-    ntx = 28 if quick else 900
-    nchan = 7 if quick else 220
+    ntx = 26 if quick else 900
+    nchan = 5 if quick else 220
     ntl = 3 if quick else 60
     for i in range(max(ntx, nchan, ntl)):
         if i < ntx:
@@ -230,7 +231,7 @@ def diagnose(raw, i, code, pub, der, cls):
     placeholder = bytes([72]) + bytes(72) + bytes([33]) + bytes(33)
     m = minitx.parse(raw)
     cands = [('preimage-without-hash-type', sighash.sha256d(pre[:-4])),
-             ('single-sha256', __import__('hashlib').sha256(pre).digest()),
+             ('single-sha256', hashlib.sha256(pre).digest()),
              ('placeholder-scriptsig-as-script-code', sighash.digest_all(raw, i, placeholder)),
              ('own-scriptsig-as-script-code', sighash.digest_all(raw, i, m['inputs'][i]['script'])),
              ('empty-script-code', sighash.digest_all(raw, i, b'')),
@@ -775,6 +776,8 @@ def mutate_signed(rec, V, r, raw, chan_raw, kind, clause, allbits, other_channel
     soff = locate(raw, env['signature'], 'signature')
     bits = range(512) if allbits else sorted(r.sample(range(512), budget_bits))
     for b in bits:
+        if b % 64 == 0 and rec.out_of_time():
+            return
         V.judge(clause, 'sig_bit', flip(raw, soff + b // 8, b % 8), chan_raw, f'signature bit {b} flipped', dict(base_w, bit=b), kind, b)
     if allbits:
         rec.hit(f'{clause}.all_512_sig_bits')
@@ -791,11 +794,13 @@ def mutate_signed(rec, V, r, raw, chan_raw, kind, clause, allbits, other_channel
         positions = list(range(voff + 85, voff + len(value)))
         meta = []
     if positions:
-        if payload_all or (allbits and len(positions) <= 400):
+        if payload_all or (allbits and len(positions) <= 160):
             picks = [(p, b) for p in positions for b in range(8)]
         else:
             picks = [(r.choice(positions), r.randrange(8)) for _ in range(budget_bits * (4 if allbits else 1))]
-        for p, b in picks:
+        for k, (p, b) in enumerate(picks):
+            if k % 64 == 0 and rec.out_of_time():
+                return
             mut = flip(raw, p, b)
             V.judge(clause, 'payload_bit', mut, chan_raw, f'claim payload byte {p - voff} bit {b} flipped',
                     dict(base_w, value_offset=p - voff, bit=b), kind, (p - voff) * 8 + b,
@@ -807,8 +812,12 @@ def mutate_signed(rec, V, r, raw, chan_raw, kind, clause, allbits, other_channel
         hoff = voff + 1
     else:
         hoff = locate(raw, env['certificate_id'], 'certificate id')
-        for s, e in meta:   # v1 signature sub-message framing: observed only
-            pass
+        # framing / version / signatureType inside the v1 signature sub-message are not covered by the v1 digest: observed only
+        covered = set(range(soff, soff + 64)) | set(range(hoff, hoff + 20))
+        for s, e in meta:
+            for p in range(voff + s, voff + e):
+                if p not in covered:
+                    V.judge(clause, 'v1_signature_metadata', flip(raw, p, 0), chan_raw, '', {}, kind, judged=False)
     # ---- embedded channel hash
     hb = range(160) if allbits else sorted(r.sample(range(160), 16))
     for b in hb:
@@ -1176,6 +1185,11 @@ def _run_legacy(rec, case):
         mutate_signed(rec, sub, r, raw, chan_raw, name, 'A4', True, [], v1=(fmt == 'v1'), payload_all=True)
         for oc in others:
             V.judge('A4', 'other_channel', raw, oc, 'validated against the channel of another pair', wit, name)
+        # damaged channel key (bits of the X/Y coordinates inside the DER SubjectPublicKeyInfo)
+        poff = locate(chan_raw, pub, 'channel public key')
+        for b in sorted(r.sample(range((len(pub) - 64) * 8, len(pub) * 8), 8)):
+            V.judge('A4', 'channel_key_damaged', raw, flip(chan_raw, poff + b // 8, b % 8), f'channel public key bit {b} flipped',
+                    dict(wit, bit=b), name, b)
         if fmt == 'v1':
             # v1 signatures commit to the claim address instead of the first input: observed
             hoff = locate(raw, sighash.p2pkh_tail(m['outputs'][0]['script']), 'claim address hash')
